@@ -272,23 +272,34 @@ def _free_names(n, bound=frozenset()):
     return out
 
 
-def range_uses_rebound_name(n, bound=frozenset()):
-    """a for/some/every clause `$x in E` where E refers to an OUTER $x (legal XPath: E is evaluated in the outer scope)"""
+def _mentions(n, name):
+    """$name occurs anywhere in n, as a reference or as the variable of a nested binder"""
+    if not (isinstance(n, list) and n and isinstance(n[0], str)):
+        return False
+    t = n[0]
+    if t == 'var':
+        return n[1] == name
+    if t in ('str', 'dec', 'dbl', 'flt', 'unt', 'nodes', 'int', 'bool', 'empty', 'ctx', 'pos', 'last'):
+        return False
+    if t in ('for', 'let', 'some', 'every'):
+        return any(nm == name or _mentions(e, name) for nm, e in n[1]) or _mentions(n[2], name)
+    return any(_mentions(c, name) for c in (n[2] if t == 'call' else n[1:]) if isinstance(c, list))
+
+
+def range_mentions_own_name(n):
+    """some for/some/every clause `$x in E` where $x occurs syntactically in E (legal XPath: E is evaluated in
+    the outer scope, and a binder nested in E has its own $x)"""
     if not (isinstance(n, list) and n and isinstance(n[0], str)):
         return False
     t = n[0]
     if t in ('str', 'dec', 'dbl', 'flt', 'unt', 'nodes', 'var', 'int', 'bool', 'empty', 'ctx', 'pos', 'last'):
         return False
     if t in ('for', 'let', 'some', 'every'):
-        b = set(bound)
         for nm, e in n[1]:
-            if t != 'let' and nm in b and nm in _free_names(e):
+            if t != 'let' and _mentions(e, nm) or range_mentions_own_name(e):
                 return True
-            if range_uses_rebound_name(e, frozenset(b)):
-                return True
-            b.add(nm)
-        return range_uses_rebound_name(n[2], frozenset(b))
-    return any(range_uses_rebound_name(c, bound) for c in (n[2] if t == 'call' else n[1:]) if isinstance(c, list))
+        return range_mentions_own_name(n[2])
+    return any(range_mentions_own_name(c) for c in (n[2] if t == 'call' else n[1:]) if isinstance(c, list))
 
 
 def has_shadowing(n, bound=frozenset()):
@@ -466,8 +477,8 @@ def judge_one(ast, v, check, localize=True):
     discs: list[Disc] = []
 
     def bucket(kind, node=ast):
-        if kind == 'unexpected-error:XPST0008' and range_uses_rebound_name(node):
-            return 'C08/range-uses-rebound-name/unexpected-error:XPST0008'
+        if kind == 'unexpected-error:XPST0008' and range_mentions_own_name(node):
+            return 'C08/range-mentions-own-name/unexpected-error:XPST0008'
         if kind == 'float32-precision':      # one root cause (xs:float kept in binary64) whatever the construct
             return f'C08/float32-precision/{construct_name(node)}'
         sig = arg_signature(node, v)
@@ -831,7 +842,7 @@ def jobs(tier, seed):
     out = []
     # measured cpu per shard (idle core): direct 41 ms/example (about 45 expressions), nested 11 ms/example (6), equiv 2.8 ms
     # quick: longest shard about 23 s cpu (60 s target with margin); thorough: about 6 min
-    plan = [('direct', 4, 550 if q else 12000), ('nested', 8, 1200 if q else 30000), ('equiv', 4, 5500 if q else 140000)]
+    plan = [('direct', 4, 450 if q else 10000), ('nested', 8, 1200 if q else 30000), ('equiv', 4, 5500 if q else 140000)]
     for name, shards, n in plan:
         for i in range(shards):
             out.append({'check': name, 'shard': i, 'n': n, 'seed': derive_seed(seed, 'C08', name, i)})
